@@ -235,6 +235,10 @@ def run(ck: Checker):
              and d.get('other_connectors is None') == 'other_connectors = other.outputs if right_connect else other.inputs', 'C10.WRAP', m, ex,
              'extend_circuit defaults: own outputs feed the attached inputs (left), attached outputs feed own inputs (right)', f'defaults are {d}', construct='extend_circuit defaults')
     ck.floor('C10.WRAP', 6)
+    ck.rule('C10.IDX', 'the right_connect branch registers the connector gate as user of each of its operands, once per occurrence (shared with C02.IDX)')
+    from .C02 import check_sites
+    check_sites(ck, R='C10.IDX', only_function='Circuit.connect_circuit')
+    ck.floor('C10.IDX', 1)
     ck.assume('truth-table equality of the composition and Block.into_circuit round trip are not decided beyond these structural clauses')
 
 
